@@ -313,7 +313,7 @@ Definition keyMatch (key1 key2 : str) : bool :=
   match index_star key2 with
   | None => str_eqb key1 key2
   | Some i =>
-      if i <? List.length key1 then str_eqb (firstn i key1) (firstn i key2)
+      if Nat.ltb i (List.length key1) then str_eqb (firstn i key1) (firstn i key2)
       else str_eqb key1 (firstn i key2)
   end.
 
@@ -321,7 +321,7 @@ Definition keyGet (key1 key2 : str) : str :=
   match index_star key2 with
   | None => []
   | Some i =>
-      if i <? List.length key1 then
+      if Nat.ltb i (List.length key1) then
         if str_eqb (firstn i key1) (firstn i key2) then skipn i key1 else []
       else []
   end.
@@ -402,7 +402,7 @@ Definition keyMatch4_c (c : cache) (key1 key2 : str) : option bool * cache :=
        match bt its key1 with
        | None => Some false
        | Some ms =>
-           if List.length tokens =? List.length ms then Some (km4_loop tokens ms [])
+           if Nat.eqb (List.length tokens) (List.length ms) then Some (km4_loop tokens ms [])
            else None                 (* panic("KeyMatch4: number of tokens ...") *)
        end
    end, c').
